@@ -369,6 +369,19 @@ def fam_unary_failing_sends(seed, dirs=("fwd", "rev")):
                 out.append(scenario("unaryfail-%s-%s-%s" % (g, d, fault), {"dir": d, "gates": [g]}, [rs],
                                     {"kind": "eager", "seed": seed, "max": 400, "faults": [{"at": -2, "step": step}]},
                                     meta={"family": "unaryfail", "done": []}))
+        # one single Send fails (the new-stream frame, the request, the half-close; a reply frame of the handler)
+        for sdir, kind in (("c2s", "new"), ("c2s", "msg"), ("c2s", "half"), ("s2c", "hdr"), ("s2c", "msg"), ("s2c", "close")):
+            for shape in ("unary", "bidi"):
+                if shape == "unary":
+                    rs = {"rpc": 1, "c": {"m": [op("invoke", shape="unary", n=30, opts=["hdr", "trl"])]},
+                          "s": {"m": [op("recv"), op("settrl", md=MD_POOL["t1"]), op("ret", code=0, n=4)]}}
+                else:
+                    rs = {"rpc": 1, "c": {"m": [op("new", shape="bidi", opts=["hdr", "trl"]), op("send", n=9), op("half")], "a": [op("recv"), op("recv"), op("trailer")]},
+                          "s": {"m": [op("recv"), op("send", n=5), op("recv"), op("settrl", md=MD_POOL["t1"]), op("ret", code=0)]}}
+                sc = scenario("unaryfail-send-%s-%s-%s-%s" % (sdir, kind, shape, d), {"dir": d}, [rs, rpc_script(2, "unary_invoke", [3], resp=2)],
+                              {"kind": "eager", "seed": seed, "max": 400}, meta={"family": "unaryfail", "done": []})
+                sc["steps"] = sc["steps"][:2] + [{"do": "sendfail", "dir": sdir, "point": kind}] + sc["steps"][2:]
+                out.append(sc)
     return out
 
 
